@@ -189,6 +189,8 @@ func (sc *lcScenario) describe() map[string]any {
 // lcOpts selects what one execution of the scenario injects and checks.
 type lcOpts struct {
 	crashAt      int  // kill the compactor at its k-th bucket operation (0 = never)
+	shutdownAt   int  // graceful shutdown: cancel the compactor's context at its k-th bucket operation, restart afterwards
+	outages      bool // seeded write outages (several consecutive uploads/deletes fail)
 	syncReadFail int  // fail the k-th bucket read performed inside a compactor meta sync (0 = never)
 	faults       bool // seeded transient bucket errors for the compactor
 	gwFaults     bool // seeded transient errors for gateway syncs
@@ -270,6 +272,9 @@ func (sc *lcScenario) execute(x *simkit.Exec, salt string, o lcOpts) lcResult {
 		if o.crashRate > 0 {
 			s.SetRate("crash:compactor", o.crashRate)
 		}
+		if o.outages {
+			s.PlanRates([]string{"outage:compactor:upload", "outage:compactor:delete", "outage:compactor:get"}, []int{0, 40, 120})
+		}
 
 		serving := false // becomes true once every gateway has synced once
 		checkAvailability := func(when string) {
@@ -350,12 +355,26 @@ func (sc *lcScenario) execute(x *simkit.Exec, salt string, o lcOpts) lcResult {
 			dataDir := filepath.Join(x.TempDir(), "compactor-"+salt)
 			var node *compactorNode
 			var h *simbucket.Handle
+			var nodeCtx context.Context
+			var nodeCancel context.CancelFunc = func() {}
+			defer func() { nodeCancel() }()
+			opCount := 0
 			quietIters := 0
 			for iter := 0; iter < sc.maxIters; iter++ {
 				curIter = iter
 				if node == nil {
 					h = bkt.Handle("compactor")
+					nodeCtx, nodeCancel = context.WithCancel(ctx)
 					h.Intercept = func(kind, name string) error {
+						opCount++
+						if o.shutdownAt > 0 && opCount == o.shutdownAt {
+							// SIGTERM: the process context is cancelled; operations that carry it fail from
+							// now on, operations on a fresh context (as thanos uses for marking) still work
+							x.CountFault("compactor-graceful-shutdown")
+							res.crashed = true
+							nodeCancel()
+							return context.Canceled
+						}
 						if !inSync {
 							return nil
 						}
@@ -371,7 +390,7 @@ func (sc *lcScenario) execute(x *simkit.Exec, salt string, o lcOpts) lcResult {
 						return nil
 					}
 					var err error
-					node, err = newCompactorNode(ctx, h, dataDir, sc.cfg)
+					node, err = newCompactorNode(nodeCtx, h, dataDir, sc.cfg)
 					if err != nil {
 						x.Troublef("compactor: %v", err)
 						return
@@ -379,7 +398,15 @@ func (sc *lcScenario) execute(x *simkit.Exec, salt string, o lcOpts) lcResult {
 					node.onSync = func(in bool) { inSync = in }
 				}
 				before := mutations(bkt, "compactor")
-				err := node.iteration(ctx)
+				err := node.iteration(nodeCtx)
+				if nodeCtx.Err() != nil && ctx.Err() == nil {
+					// the process exits after a graceful shutdown and is started again
+					s.Probe("lc.compactor_shut_down_and_restarted")
+					h.Kill()
+					node = nil
+					time.Sleep(10 * time.Second)
+					continue
+				}
 				res.plans = append(res.plans, node.planner.records()...)
 				node.planner.reset()
 				if h.Crashed() {
